@@ -42,6 +42,7 @@ Inductive event :=
       (* [4,id,code,descr,details] written, code one of [codes]; description and details
          when the model determines them *)
 | EvEnqueue (m : msg)                                (* handed to the response queue *)
+| EvWriteFailed                                      (* connection.send raised while writing the reply *)
 | EvEscape.                                          (* an exception leaves route_message *)
 
 Definition internal_error : option (string * json) :=
@@ -152,6 +153,16 @@ Section Dispatch.
     | UMsg (Call id a p) => handle_call c id a p
     | UMsg m => [EvEnqueue m]
     end.
+
+  (* the same when the connection refuses the write of the reply: the exception of send() is not
+     an OCPPError, nothing catches it, and nothing after the write happens (no after-hook) *)
+  Fixpoint cut_at_reply (evs : list event) : list event :=
+    match evs with
+    | [] => []
+    | e :: r => if is_reply e then [EvWriteFailed; EvEscape] else e :: cut_at_reply r
+    end.
+  Definition route_message_io (send_ok : bool) (c : cfg) (lo : loads_outcome) : list event :=
+    if send_ok then route_message c lo else cut_at_reply (route_message c lo).
 
   (* start(): frames in arrival order, one at a time, until recv raises or a frame's
      processing lets an exception escape *)
